@@ -618,3 +618,34 @@ Section Check.
     if Bool.eqb halted (m_halt c) && kvs_eqb d (m_after c) && (c_version st' =? m_version c)%Z
     then None else Some (halted, d, c_version st').
 End Check.
+
+(** ** The Alphabet contract's GAS distribution (0.16 -> 0.17) *)
+
+Record acase := mkACase {
+  a_env : env; a_data : item; a_before : kvs;
+  a_halt : bool; a_after : kvs; a_transfers : list (bytes * Z) }.
+
+Fixpoint transfers_eqb (a b : list (bytes * Z)) : bool :=
+  match a, b with
+  | [], [] => true
+  | (t1, x1) :: a', (t2, x2) :: b' => bytes_eqb t1 t2 && (x1 =? x2)%Z && transfers_eqb a' b'
+  | _, _ => false
+  end.
+
+Definition env_alphabet (h gas : Z) (netmap : bytes) (nodes : list item) (ir : list bytes) : env :=
+  mkEnv h [] [] [] gas None
+        (fun nm => if bytes_eqb nm netmap then Some nodes else None)
+        (fun nm => if bytes_eqb nm netmap then Some ir else None)
+        (fun _ => true).
+
+Definition check_alpha (stdacc : bytes -> option bytes) (prevN verN : Z) (c : acase)
+  : option (bool * kvs * Z) :=
+  let before := of_list (a_before c) in
+  let r := (args <-! item_to_list (a_data c); deploy_alphabet stdacc prevN verN (a_env c) args before) in
+  let '(halted, s', trs) :=
+    match r with
+    | Halt (s', trs) => (true, s', map (fun t => (tr_to t, tr_amount t)) trs)
+    | Fault => (false, before, [])
+    end in
+  if Bool.eqb halted (a_halt c) && kvs_eqb (sdump s') (a_after c) && transfers_eqb trs (a_transfers c)
+  then None else Some (halted, sdump s', fold_right (fun t acc => snd t + acc)%Z 0%Z trs).
